@@ -368,8 +368,36 @@ def _established_by_split(atom, pol, cfacts):
     return False
 
 
+_ELEM_ENUM = re.compile(r"elem\(([^()]*(?:\([^()]*\))*[^()]*)\)\.1(?![0-9])")
+_INDEXED = re.compile(r"([A-Za-z_][\w.]*)\.\[\]")
+
+
+def canon_elem(txt):
+    """`some element of the sequence X`: reached by iterating (`elem(X)`), by iterating with `enumerate()` (`elem(X).1`) or by
+    indexing with the loop counter (`X.[]`) - one spelling."""
+    if not isinstance(txt, str) or ("elem(" not in txt and ".[]" not in txt):
+        return txt
+    txt = _ELEM_ENUM.sub(lambda m: "elem(%s)" % m.group(1), txt)
+    txt = _INDEXED.sub(lambda m: "elem(%s)" % m.group(1), txt)
+    return txt
+
+
+def canon_edge(e):
+    e2 = Edge()
+    e2.src, e2.res, e2.dst = canon_elem(e.src), e.res, canon_elem(e.dst)
+    e2.pos = canon_elem(e.pos) if isinstance(e.pos, str) else frozenset(canon_elem(x) for x in e.pos)
+    e2.effects = tuple(canon_elem(x) for x in e.effects)
+    e2.facts = frozenset((canon_elem(a), p_) for a, p_ in e.facts)
+    e2.line = getattr(e, "line", None)
+    fs = getattr(e, "facts_sat", None)
+    e2.facts_sat = frozenset((canon_elem(a), p_) for a, p_ in fs) if fs else fs
+    return e2
+
+
 def conforms(spec_edges, comp_edges):
     """Returns (problems, n_obligations).  problems: list of (kind, text)."""
+    spec_edges = [canon_edge(e) for e in spec_edges]
+    comp_edges = [canon_edge(e) for e in comp_edges]
     problems = []
     matched = set()
     n = 0
